@@ -190,6 +190,18 @@ CHECKS["C11"] = (
     "DESIGN.md section 3 / C11",
 )
 
+CHECKS["C12"] = (
+    "Hypothesis class hierarchies exec-ed afresh for every first-use order; exhaustive flag enumeration per class and instance vs a spec-derived field table",
+    "Seeded Hypothesis search over generated class hierarchies (overrides, init=False, compare=False, both, "
+    "kw_only, every child / property shape, falsy child nodes); each hierarchy is exec-ed afresh for every "
+    "permutation of first use among its classes, and for every class and three instances ALL 2^5 x 2 flag / "
+    "sort_keys combinations of get_properties, all 2^5 of the static get_property_fields and both orders of the "
+    "child accessors are enumerated and compared (values and Field objects by identity) with a field table "
+    "derived from the spec. Exhaustive over flags per case, bounded over hierarchies.",
+    "Trusts Hypothesis, dataclasses.fields (cross-checked) and the spec-derived table in pbt/props/c12.py.",
+    "DESIGN.md section 3 / C12",
+)
+
 NOT_YET = "check not built yet in this snapshot (see DESIGN.md section 9 build order); nothing is claimed"
 
 
